@@ -14,7 +14,7 @@ Conventions
   `Lemmas/Useful.lean` proves that the fuel `fuelBound P q` always suffices (termination).
 * Where Rust would panic (`p_row.first().unwrap()` on an empty row, `assert!(variants_grouped.len()==1)`,
   `split_remaining.pop().unwrap()`) the model is total (it skips the row / takes the first class / takes
-  what is there); `Shaped` and `patTy` describe the inputs on which the panics cannot happen
+  what is there); `patTy` describes the inputs on which the panics cannot happen
   (`Lemmas/Useful.lean`: shapes are preserved), and the driver answers `illtyped` outside them.
 -/
 namespace SamVerif.Useful
@@ -332,18 +332,84 @@ def rankOkAt (sig : Sig) (rank : Nat → Nat) (t : Nat) : Bool :=
 def rankCheck (defs : List Def) (rank : List Nat) : Bool :=
   (List.range defs.length).all (rankOkAt (sigOfTable defs) (fun t => rank.getD t 0))
 
+/-! ### Generic classes and their instantiation
+
+`resolve_detailed_struct_definitions_opt` / `resolve_detailed_enum_definitions_opt`
+(typing_context.rs:1040-1100) substitute the type arguments of the scrutinee's nominal type for the
+class's type parameters in every field type.  The usefulness model works on *instances*
+(`Sig : type id → Def`); `monoCheck` decides that a table of instances is exactly what this
+substitution produces from the generic class declarations, so the instantiation itself is inside the
+model (the protocol sends both; the driver answers `mono=1`).  One type parameter per class. -/
+
+inductive GTy where
+  | int
+  | tparam
+  | cls (c : Nat) (arg : Option GTy)
+  deriving Repr, Inhabited
+
+def GTy.beq : GTy → GTy → Bool
+  | .int, .int => true
+  | .tparam, .tparam => true
+  | .cls c none, .cls d none => c = d
+  | .cls c (some a), .cls d (some b) => c = d && GTy.beq a b
+  | _, _ => false
+
+/-- `subst_type` with the map {T ↦ arg} -/
+def substTy (arg : Option GTy) : GTy → GTy
+  | .int => .int
+  | .tparam => arg.getD .int
+  | .cls c none => .cls c none
+  | .cls c (some a) => .cls c (some (substTy arg a))
+
+inductive GDef where
+  | enum (variants : List (Nat × List GTy))
+  | struct (fields : List (Nat × GTy))
+  deriving Repr, Inhabited
+
+/-- field types of one instance agree with the substituted generic field types -/
+def fieldsAgree (tyOf : List GTy) (arg : Option GTy) : List Nat → List GTy → Bool
+  | [], [] => true
+  | i :: is, g :: gs => (match tyOf[i]? with | some t => GTy.beq t (substTy arg g) | none => false) &&
+      fieldsAgree tyOf arg is gs
+  | _, _ => false
+
+def variantsAgree (tyOf : List GTy) (arg : Option GTy) : List (Nat × List Nat) → List (Nat × List GTy) → Bool
+  | [], [] => true
+  | (n, is) :: vs, (m, gs) :: gvs => n = m && fieldsAgree tyOf arg is gs && variantsAgree tyOf arg vs gvs
+  | _, _ => false
+
+def monoEntry (classes : List GDef) (tyOf : List GTy) : GTy → Def → Bool
+  | .int, .prim => true
+  | .cls c arg, .enum cls vs =>
+    c = cls && (match classes[c]? with | some (.enum gvs) => variantsAgree tyOf arg vs gvs | _ => false)
+  | .cls c arg, .struct fs =>
+    (match classes[c]? with
+      | some (.struct gfs) => fs.map (·.1) = gfs.map (·.1) && fieldsAgree tyOf arg (fs.map (·.2)) (gfs.map (·.2))
+      | _ => false)
+  | _, _ => false
+
+def monoCheckGo (classes : List GDef) (tyOf : List GTy) : List GTy → List Def → Bool
+  | [], [] => true
+  | t :: ts, d :: ds => monoEntry classes tyOf t d && monoCheckGo classes tyOf ts ds
+  | _, _ => false
+
+/-- the table `defs` (with `tyOf[i]` the closed type of id `i`) is the instantiation of `classes` -/
+def monoCheck (classes : List GDef) (tyOf : List GTy) (defs : List Def) : Bool :=
+  monoCheckGo classes tyOf tyOf defs
+
 /-! ## Source patterns and their normalisation (main_checker.rs:1082-1512)
 
 `check_matching_pattern` returns the checked pattern and the abstract node, and reports errors.
-The model keeps the abstract node and *whether* an error was reported. Identifier names are not
-modelled (so the or-pattern binding-consistency errors, main_checker.rs:1470-1500, are outside the
-model: the generators only put `_` below `|`). -/
+The model keeps the abstract node, *whether* an error was reported, and the bindings of the checked
+pattern (`MatchingPattern::bindings`, samlang-ast source.rs:342-371: name ↦ type, a `BTreeMap`, an
+or-pattern contributes the bindings of its first alternative), which decide the or-pattern
+binding-consistency errors (main_checker.rs:1462-1500). -/
 
 inductive SPat where
   | tuple (ps : List SPat)
-  | object (names : List Nat) (ps : List SPat)    -- `{ f as p, … }` (`{ f }` is `f as <id>`)
+  | object (names : List Nat) (ps : List SPat)    -- `{ f as p, … }` (`{ f }` is `f as <id f>`)
   | variant (tag : Nat) (args : List SPat)        -- `Tag` and `Tag()` both have no arguments
-  | id
+  | id (name : Nat)
   | wild
   | or (ps : List SPat)
   deriving Repr, Inhabited
@@ -363,10 +429,40 @@ def fieldIndex (fs : List (Nat × Nat)) (name : Nat) : Option (Nat × Nat) :=   
     | (n, t) :: rest, i => if n = name then some (i, t) else go rest (i + 1)
   go fs 0
 
+/-- bindings of a checked pattern: name ↦ type (`none` = `any`) -/
+abbrev Binds := List (Nat × Option Nat)
+
+/-- `BTreeMap::insert` -/
+def bindInsert (m : Binds) (name : Nat) (ty : Option Nat) : Binds :=
+  (name, ty) :: m.filter (fun x => x.1 ≠ name)
+
+def bindMerge (m later : Binds) : Binds := later.foldr (fun x acc => bindInsert acc x.1 x.2) m
+
+/-- `assignability_check` on the types that can occur here: `any` meets everything, two type
+instances are assignable iff they are the same instance (type_system.rs:87-131). -/
+def tyCompat : Option Nat → Option Nat → Bool
+  | some a, some b => a = b
+  | _, _ => true
+
+/-- main_checker.rs:1476-1496 for one later alternative: same names, pairwise assignable types -/
+def bindsConsistent (expected actual : Binds) : Bool :=
+  expected.all (fun e => actual.any (fun a => a.1 = e.1)) &&
+  actual.all (fun a => expected.any (fun e => e.1 = a.1)) &&
+  expected.all (fun e => actual.all (fun a => a.1 ≠ e.1 || tyCompat a.2 e.2))
+
 structure Norm where
   pat : Pat
   err : Bool        -- some diagnostic was reported while checking the pattern
   panic : Bool := false   -- `abstract_pattern_nodes[*field_order]` out of bounds (main_checker.rs:1326)
+  binds : Binds := []
+  deriving Repr, Inhabited
+
+structure NormL where
+  pats : List Pat
+  err : Bool
+  panic : Bool
+  binds : Binds             -- merged bindings (tuple / object elements)
+  each : List Binds := []   -- bindings per element (or-alternatives)
   deriving Repr, Inhabited
 
 /-- `ty = none` is the `Type::Any` the checker continues with after an error. -/
@@ -376,7 +472,7 @@ def sigAt (sig : Sig) : Option Nat → Def
 
 mutual
 def normalize (sig : Sig) (wildOnBad : Bool) : SPat → Option Nat → Norm
-  | .id, _ => { pat := .wild, err := false }
+  | .id name, ty => { pat := .wild, err := false, binds := [(name, ty)] }
   | .wild, _ => { pat := .wild, err := false }
   | .tuple ps, ty =>
     match sigAt sig ty with
@@ -385,65 +481,83 @@ def normalize (sig : Sig) (wildOnBad : Bool) : SPat → Option Nat → Norm
       -- fewer elements than fields: error + wildcards (main_checker.rs:1247-1256);
       -- more elements: `ElementMissing` errors, the surplus nodes are dropped (see `normTuple`)
       let pad := wilds (fs.length - ps.length)
-      { pat := .struct none (r.1 ++ pad), err := r.2.1 || decide (ps.length ≠ fs.length), panic := r.2.2 }
-    | _ => { pat := badDefault wildOnBad, err := true }     -- NotAStruct
+      { pat := .struct none (r.pats ++ pad), err := r.err || decide (ps.length ≠ fs.length),
+        panic := r.panic, binds := r.binds }
+    | _ =>
+      -- NotAStruct; `any_typed_invalid_matching_pattern` still binds the identifiers at type `any`
+      let r := normTuple sig wildOnBad ps []
+      { pat := badDefault wildOnBad, err := true, binds := r.binds }
   | .object names es, ty =>
     match sigAt sig ty with
     | .struct fs =>
       let r := normObject sig wildOnBad fs es names (wilds fs.length)
-      let mentioned := names
-      let missing := fs.any (fun f => !mentioned.contains f.1)   -- NonExhaustiveStructBinding
-      { pat := .struct none r.1, err := r.2.1 || missing, panic := r.2.2 }
-    | _ => { pat := badDefault wildOnBad, err := true }
+      let missing := fs.any (fun f => !names.contains f.1)   -- NonExhaustiveStructBinding
+      { pat := .struct none r.pats, err := r.err || missing, panic := r.panic, binds := r.binds }
+    | _ =>
+      let r := normTuple sig wildOnBad es []
+      { pat := badDefault wildOnBad, err := true, binds := r.binds }
   | .variant tag ps, ty =>
     match sigAt sig ty with
     | .enum cls vs =>
       match findVariant vs tag with
-      | none => { pat := .or [], err := true }                 -- CannotResolveMember → `nothing()`
+      | none =>
+        let r := normTuple sig wildOnBad ps []
+        { pat := .or [], err := true, binds := r.binds }       -- CannotResolveMember → `nothing()`
       | some tys =>
         let r := normTuple sig wildOnBad ps tys
         let pad := wilds (tys.length - ps.length)
-        { pat := .struct (some { cls := cls, name := tag }) (r.1 ++ pad),
-          err := r.2.1 || decide (ps.length ≠ tys.length), panic := r.2.2 }
-    | _ => { pat := badDefault wildOnBad, err := true }       -- NotAnEnum
+        { pat := .struct (some { cls := cls, name := tag }) (r.pats ++ pad),
+          err := r.err || decide (ps.length ≠ tys.length), panic := r.panic, binds := r.binds }
+    | _ =>
+      let r := normTuple sig wildOnBad ps []
+      { pat := badDefault wildOnBad, err := true, binds := r.binds }       -- NotAnEnum
   | .or ps, ty =>
     let r := normAll sig wildOnBad ps ty
-    { pat := mkOr r.1, err := r.2.1, panic := r.2.2 }
-/-- elements of a tuple pattern against the field types (`none` type once the fields run out) -/
-def normTuple (sig : Sig) (wildOnBad : Bool) : List SPat → List Nat → List Pat × Bool × Bool
-  | [], _ => ([], false, false)
+    -- main_checker.rs:1462-1510: every later alternative must bind the names of the first one at
+    -- assignable types; otherwise an error is reported and the node is the bad-pattern default
+    let expected := r.each.headD []
+    let inconsistent := (r.each.drop 1).any (fun a => !bindsConsistent expected a)
+    { pat := if inconsistent then badDefault wildOnBad else mkOr r.pats,
+      err := r.err || inconsistent, panic := r.panic, binds := expected }
+/-- elements of a tuple pattern against the field types (`any` once the fields run out) -/
+def normTuple (sig : Sig) (wildOnBad : Bool) : List SPat → List Nat → NormL
+  | [], _ => { pats := [], err := false, panic := false, binds := [] }
   | p :: ps, [] =>
     -- surplus element: checked against `any` for its diagnostics, but (since the fix 6443f12) it is
     -- not pushed as a column of the abstract pattern (main_checker.rs:1226-1234, 1403-1414)
     let a := normalize sig wildOnBad p none
     let r := normTuple sig wildOnBad ps []
-    (r.1, true, a.panic || r.2.2)
+    { pats := r.pats, err := true, panic := a.panic || r.panic, binds := bindMerge a.binds r.binds }
   | p :: ps, t :: ts =>
     let a := normalize sig wildOnBad p (some t)
     let r := normTuple sig wildOnBad ps ts
-    (a.pat :: r.1, a.err || r.2.1, a.panic || r.2.2)
+    { pats := a.pat :: r.pats, err := a.err || r.err, panic := a.panic || r.panic,
+      binds := bindMerge a.binds r.binds }
 /-- elements of an object pattern, updating the vector of abstract nodes in place -/
 def normObject (sig : Sig) (wildOnBad : Bool) (fs : List (Nat × Nat)) :
-    List SPat → List Nat → List Pat → List Pat × Bool × Bool
-  | [], _, acc => (acc, false, false)
-  | _ :: _, [], acc => (acc, false, false)     -- protocol error: fewer names than patterns
+    List SPat → List Nat → List Pat → NormL
+  | [], _, acc => { pats := acc, err := false, panic := false, binds := [] }
+  | _ :: _, [], acc => { pats := acc, err := false, panic := false, binds := [] }  -- protocol error
   | p :: es, name :: names, acc =>
     match fieldIndex fs name with
     | some (i, t) =>
       let a := normalize sig wildOnBad p (some t)
       let r := normObject sig wildOnBad fs es names (acc.set i a.pat)
-      (r.1, a.err || r.2.1, a.panic || r.2.2)
+      { pats := r.pats, err := a.err || r.err, panic := a.panic || r.panic,
+        binds := bindMerge a.binds r.binds }
     | none =>
       -- unknown field: error, checked against `any`, stored at the parser's `field_order` = 0
       let a := normalize sig wildOnBad p none
       let r := normObject sig wildOnBad fs es names (acc.set 0 a.pat)
-      (r.1, true, a.panic || r.2.2 || acc.isEmpty)
-def normAll (sig : Sig) (wildOnBad : Bool) : List SPat → Option Nat → List Pat × Bool × Bool
-  | [], _ => ([], false, false)
+      { pats := r.pats, err := true, panic := a.panic || r.panic || acc.isEmpty,
+        binds := bindMerge a.binds r.binds }
+def normAll (sig : Sig) (wildOnBad : Bool) : List SPat → Option Nat → NormL
+  | [], _ => { pats := [], err := false, panic := false, binds := [], each := [] }
   | p :: ps, ty =>
     let a := normalize sig wildOnBad p ty
     let r := normAll sig wildOnBad ps ty
-    (a.pat :: r.1, a.err || r.2.1, a.panic || r.2.2)
+    { pats := a.pat :: r.pats, err := a.err || r.err, panic := a.panic || r.panic,
+      binds := [], each := a.binds :: r.each }
 end
 
 end SamVerif.Useful
